@@ -3,8 +3,10 @@
 // Contracts for package main (cmd/hidi), read by the hv verifier (/verif). Comment-only file: compiles to nothing.
 package main
 
+// runs under a deferred recover (repair F17): see the note on readDeviceConfig in the config package's contracts
 //@ func LoadHIDIConfig
-//@   safety [C09]
+//@   safety [ROB]
+//@   terminates [C09]
 
 // ---- C18 (partial): start-up upkeep never opens anything for writing outside the factory tree and the blacklist.
 // Frame clause only: every OS call that can create or change something (OpenFile with a write flag, Mkdir) is a call-site
